@@ -256,6 +256,7 @@ func c12Child(args []string) int {
 				}
 				h.AllOcc = true
 				h.Reset(plan)
+				h.Prebuild() // the harness's data objects, not anything of ggql's: the root stays cold
 				return h.Root
 			}
 		} else {
